@@ -212,25 +212,36 @@ Definition m_holds (pc : mpc) : bool := match pc with MActive _ | MLive => true 
 Definition m_live (pc : mpc) : bool := match pc with MLive => true | _ => false end.
 Definition mrun v max (sh : msh) (ts : list mpc) (sched : list nat) := run _ _ (mstep v max) (sh, ts) sched.
 
-(* 3b. the slot release seen as events: one holder = one handleConnection call; its script is ANY sequence of acquire /
-   release events (release = OnClosed's or the deferred releaseSlot(), in any number and order) *)
-Inductive hev := HAcq | HRel.
-Record hloc := { h_todo : list hev; h_acquired : bool; h_holding : bool }.
-Definition hstep (once : bool) (max : nat) (lo : hloc) (c : Z) : hloc * Z :=
+(* 3b. the slot seen as events: one holder = one handleConnection call; its script is ANY sequence of
+   HAcq       acquireConnectionSlot() with the limit known (mapping limit, or the user quota could be read)
+   HAcqFault  acquireConnectionSlot() while GetUserQuota() fails: the limit is unknown; the code lets the connection through
+              AND COUNTS it (falls into the "unlimited: only count" branch)
+   HRel       releaseSlot() — OnClosed's or the deferred one, in any number and order.
+   once = the release is wrapped in a sync.Once (the code); count_on_fault = a fault admission is counted (the code).
+   The variants once = false and count_on_fault = false are refuted. *)
+Inductive hev := HAcq | HAcqFault | HRel.
+Record hloc := { h_todo : list hev; h_acquired : bool; h_holding : bool; h_byfault : bool }.
+Definition hstep (once count_on_fault : bool) (max : nat) (lo : hloc) (c : Z) : hloc * Z :=
+  let next r a h f := {| h_todo := r; h_acquired := a; h_holding := h; h_byfault := f |} in
   match h_todo lo with
   | [] => (lo, c)
   | HAcq :: r =>
-      if h_acquired lo then ({| h_todo := r; h_acquired := true; h_holding := h_holding lo |}, c)
+      if h_acquired lo then (next r true (h_holding lo) (h_byfault lo), c)
       else if (0 <? max) && (Z.of_nat max <=? c)%Z
-           then ({| h_todo := []; h_acquired := false; h_holding := false |}, c)     (* refused: returns at once *)
-           else ({| h_todo := r; h_acquired := true; h_holding := true |}, c + 1)%Z
+           then (next [] false false false, c)                                  (* refused: returns at once *)
+           else (next r true true false, c + 1)%Z
+  | HAcqFault :: r =>
+      if h_acquired lo then (next r true (h_holding lo) (h_byfault lo), c)
+      else (next r true true true, if count_on_fault then c + 1 else c)%Z        (* let through; counted (or not) *)
   | HRel :: r =>
-      if h_holding lo then ({| h_todo := r; h_acquired := h_acquired lo; h_holding := false |}, c - 1)%Z
-      else if once || negb (h_acquired lo) then ({| h_todo := r; h_acquired := h_acquired lo; h_holding := false |}, c)
-      else ({| h_todo := r; h_acquired := h_acquired lo; h_holding := false |}, c - 1)%Z      (* released AGAIN *)
+      if h_holding lo then (next r (h_acquired lo) false (h_byfault lo), c - 1)%Z
+      else if once || negb (h_acquired lo) then (next r (h_acquired lo) false (h_byfault lo), c)
+      else (next r (h_acquired lo) false (h_byfault lo), c - 1)%Z                 (* released AGAIN *)
   end.
-Definition h_new (script : list hev) : hloc := {| h_todo := script; h_acquired := false; h_holding := false |}.
-Definition hrun once max (c : Z) (ts : list hloc) (sched : list nat) := run _ _ (hstep once max) (c, ts) sched.
+Definition h_new (script : list hev) : hloc := {| h_todo := script; h_acquired := false; h_holding := false; h_byfault := false |}.
+Definition h_known_holding (lo : hloc) : bool := h_holding lo && negb (h_byfault lo).
+Definition h_fault_holding (lo : hloc) : bool := h_holding lo && h_byfault lo.
+Definition hrun once cof max (c : Z) (ts : list hloc) (sched : list nat) := run _ _ (hstep once cof max) (c, ts) sched.
 
 (* 2b. ClientRegistry.Register with the lock RELEASED between the eviction and the insert (NOT the code; the variant the
    harness's gated stream Close() distinguishes; refuted) *)
